@@ -423,13 +423,27 @@ func main() {
 		}
 		h.model = m
 		defer m.Close()
-		// digest table: Go's sha256 of every text the run can mention
+		// the driver's H is a SHA-256 written in Lean: compare it with crypto/sha256 on every text
+		// the run can mention and on random byte-ish strings of many lengths (padding boundaries)
 		all := append([]string{""}, texts...)
+		r := hx.NewRand(uint64(run.Seed) + 99)
+		for n := 0; n < 200; n++ {
+			b := make([]rune, n)
+			for i := range b {
+				b[i] = rune(hx.Pick(r, []int{'a', '{', ' ', 0xe9, 0x1F600, '\n', '"'}))
+			}
+			all = append(all, string(b))
+		}
+		bad := ""
 		for _, t := range all {
 			if rep, err := m.Ask(hx.N("hash", hx.A(t), hx.A(sha(t))).String()); err != nil || rep != "ok" {
-				fmt.Fprintln(os.Stderr, "model rejected the digest table:", rep, err)
-				os.Exit(2)
+				bad = fmt.Sprintf("text %q: %s %v", t, rep, err)
+				break
 			}
+		}
+		run.Oblige("lean-sha256 = crypto/sha256 (the driver's H)", "correspondence", len(all), bad == "", bad)
+		if bad != "" {
+			run.Violate("correspondence", "the Lean SHA-256 disagrees with crypto/sha256: "+bad, "", true, bad)
 		}
 	}
 	run.SetRule("histories of requests {GET,POST} × {no text, 7 texts (valid, invalid, multi-operation)} × 20 extension spellings against one recording storage; distinct = distinct history; non-trivial = contains a version-1 registration and a version-1 hash-only lookup")
